@@ -330,7 +330,7 @@ func c18WaitListening(kind, addr string) bool {
 
 func TestVerifC18Servers(t *testing.T) {
 	L := ev.Begin("C18", "c18-servers", "exploration",
-		"scenario matrix on real servers started through fabio's own ListenAndServe*: listener {http, https, tcp, grpc, https+tcp+sni, http carrying a websocket tunnel} x in-flight work {none, finishes when released, never ends (hanging handler / open tunnel / open gRPC stream) with a wait of 300ms and of 0, a silent client (connected, sends nothing; wait 300ms)} x shutdown moment {before any request, request inside its handler, released right after shutdown began}, sequenced by causal barriers (handler-entered and listener-refuses-connect signals), then proxy.Shutdown(wait); plus every ordered pair of an idle and a busy listener of different kinds whose work ends 300 ms after shutdown began, also with both on the same port number of two local addresses (127.0.0.1:P, 127.0.0.2:P). plus four listeners with never-ending work and a wait of 2s. plus two listeners of every kind pair from {http, tcp, grpc} both configured with port 0 (bound ports read from /proc/net/tcp). oracle: after shutdown began connects fail (on every listener, also while others are still draining; with held work and a 3 s wait also at TCP level within 1.5 s); released work completes with its normal result; Shutdown returns within wait + 5s slack (a miss means 'did not return'). non-trivial = every scenario")
+		"scenario matrix on real servers started through fabio's own ListenAndServe*: listener {http, https, tcp, grpc, https+tcp+sni, http carrying a websocket tunnel} x in-flight work {none, finishes when released, never ends (hanging handler / open tunnel / open gRPC stream) with a wait of 300ms and of 0, a silent client (connected, sends nothing; wait 300ms)} x shutdown moment {before any request, request inside its handler, released right after shutdown began}, sequenced by causal barriers (handler-entered and listener-refuses-connect signals), then proxy.Shutdown(wait); plus every ordered pair of an idle and a busy listener of different kinds whose work ends 300 ms after shutdown began, also with both on the same port number of two local addresses (127.0.0.1:P, 127.0.0.2:P). plus four listeners with never-ending work and a wait of 2s. plus two listeners of every kind pair from {http, tcp, grpc} both configured with port 0 (bound ports read from /proc/net/tcp). plus the history dead dynamic listener -> CloseProxy (once, twice) -> Shutdown. oracle: after shutdown began connects fail (on every listener, also while others are still draining; with held work and a 3 s wait also at TCP level within 1.5 s); released work completes with its normal result; Shutdown returns within wait + 5s slack (a miss means 'did not return'). non-trivial = every scenario")
 	kinds := []string{"http", "https", "tcp", "grpc", "https+tcp+sni", "http+ws"}
 	type scn struct {
 		kind string
@@ -654,6 +654,69 @@ func TestVerifC18Servers(t *testing.T) {
 		L.Sample(d)
 		if strings.HasPrefix(s.work, "never") {
 			close(w.release) // let the stuck work go so that later scenarios start clean
+		}
+	}
+	// last (a hang here would hold every later scenario): a dynamic TCP listener whose accept loop has ended because its
+	// socket was closed under it, CloseProxy for its address (what the tcp-dynamic refresh does for a port that left
+	// the table), then the shutdown - which must return by the wait like any other
+	for _, closeTwice := range []bool{false, true} {
+		ln, err := net.Listen("tcp", "127.0.0.1:0")
+		if err != nil {
+			panic("VERIF-INFRA: " + err.Error())
+		}
+		addr := ln.Addr().String()
+		srv := &tcp.Server{Handler: tcp.HandlerFunc(func(c net.Conn) error { return nil })}
+		served := make(chan error, 1)
+		go func() { served <- serve(ln, srv) }()
+		up := false
+		for i := 0; i < 2000 && !up; i++ {
+			mu.Lock()
+			_, up = servers[addr]
+			mu.Unlock()
+			time.Sleep(time.Millisecond)
+		}
+		if !up {
+			panic("VERIF-INFRA: dynamic listener did not register")
+		}
+		ln.Close()
+		select {
+		case <-served:
+		case <-time.After(20 * time.Second):
+			panic("VERIF-INFRA: Serve did not return after its listener was closed")
+		}
+		L.Case()
+		L.NontrivialKey(fmt.Sprint("closeproxy-of-a-dead-listener", closeTwice))
+		d := map[string]interface{}{"history": []string{"tcp listener registered", "its socket closed, accept loop ended", "CloseProxy(addr)", "Shutdown(300ms)"}, "close_proxy_called_twice": closeTwice}
+		closed := make(chan error, 1)
+		go func() {
+			e := CloseProxy(addr)
+			if closeTwice {
+				CloseProxy(addr)
+			}
+			closed <- e
+		}()
+		hung := false
+		select {
+		case e := <-closed:
+			d["close_proxy_returned"] = fmt.Sprint(e)
+		case <-time.After(8 * time.Second):
+			hung = true
+			L.Violation("closeproxy-did-not-return/dead-listener", d)
+		}
+		returned := make(chan struct{})
+		if !hung {
+			go func() { Shutdown(300 * time.Millisecond); close(returned) }()
+			select {
+			case <-returned:
+			case <-time.After(300*time.Millisecond + 8*time.Second):
+				hung = true
+				d["shutdown_returned_after"] = "never (waited 8.3s)"
+				L.Violation("shutdown-did-not-return-within-the-wait/after-closeproxy-of-a-dead-listener", d)
+			}
+		}
+		if hung {
+			L.End(false) // the registry may be locked for good: nothing after this can run
+			return
 		}
 	}
 	L.End(true)
